@@ -169,6 +169,21 @@ func (p *wkbParser) parseGeomRoot(gtype GeometryType, ctype CoordinatesType) (Ge
 	}
 }
 
+// parseCount parses the number of elements in a Polygon, multi geometry, or
+// GeometryCollection. Each element occupies at least minElemSize bytes, so a
+// count that cannot possibly be satisfied by the remaining input is rejected
+// up front (before any allocation sized by it).
+func (p *wkbParser) parseCount(minElemSize int) (uint32, error) {
+	n, err := p.parseUint32()
+	if err != nil {
+		return 0, err
+	}
+	if uint64(n)*uint64(minElemSize) > uint64(len(p.body)) {
+		return 0, wkbSyntaxError{"unexpected EOF"}
+	}
+	return n, nil
+}
+
 func (p *wkbParser) parseFloat64() (float64, error) {
 	if len(p.body) < 8 {
 		return 0, wkbSyntaxError{"unexpected EOF"}
@@ -225,11 +240,13 @@ func (p *wkbParser) parseLineString(ctype CoordinatesType) (LineString, error) {
 	if err != nil {
 		return LineString{}, err
 	}
-	floats := make([]float64, int(n)*ctype.Dimension())
-
-	if len(p.body) < 8*len(floats) {
+	// Check the count against the remaining input before allocating, so that
+	// a corrupt count cannot cause a huge allocation.
+	numFloats := uint64(n) * uint64(ctype.Dimension())
+	if uint64(len(p.body)) < 8*numFloats {
 		return LineString{}, wkbSyntaxError{"unexpected EOF"}
 	}
+	floats := make([]float64, numFloats)
 
 	var seqData []byte
 	if p.no {
@@ -267,7 +284,7 @@ func flipEndianessStride8(p []byte) {
 }
 
 func (p *wkbParser) parsePolygon(ctype CoordinatesType) (Polygon, error) {
-	n, err := p.parseUint32()
+	n, err := p.parseCount(4) // each ring has at least a point count
 	if err != nil {
 		return Polygon{}, err
 	}
@@ -285,7 +302,7 @@ func (p *wkbParser) parsePolygon(ctype CoordinatesType) (Polygon, error) {
 }
 
 func (p *wkbParser) parseMultiPoint(ctype CoordinatesType) (MultiPoint, error) {
-	n, err := p.parseUint32()
+	n, err := p.parseCount(5) // each child has at least a byte order and type
 	if err != nil {
 		return MultiPoint{}, err
 	}
@@ -307,7 +324,7 @@ func (p *wkbParser) parseMultiPoint(ctype CoordinatesType) (MultiPoint, error) {
 }
 
 func (p *wkbParser) parseMultiLineString(ctype CoordinatesType) (MultiLineString, error) {
-	n, err := p.parseUint32()
+	n, err := p.parseCount(5) // each child has at least a byte order and type
 	if err != nil {
 		return MultiLineString{}, err
 	}
@@ -329,7 +346,7 @@ func (p *wkbParser) parseMultiLineString(ctype CoordinatesType) (MultiLineString
 }
 
 func (p *wkbParser) parseMultiPolygon(ctype CoordinatesType) (MultiPolygon, error) {
-	n, err := p.parseUint32()
+	n, err := p.parseCount(5) // each child has at least a byte order and type
 	if err != nil {
 		return MultiPolygon{}, err
 	}
@@ -351,7 +368,7 @@ func (p *wkbParser) parseMultiPolygon(ctype CoordinatesType) (MultiPolygon, erro
 }
 
 func (p *wkbParser) parseGeometryCollection(ctype CoordinatesType) (GeometryCollection, error) {
-	n, err := p.parseUint32()
+	n, err := p.parseCount(5) // each child has at least a byte order and type
 	if err != nil {
 		return GeometryCollection{}, err
 	}
